@@ -71,6 +71,8 @@ class Sandbox:
             with open(self.target, "wb") as f:
                 f.write(state["content"].encode("utf-8"))
             os.chmod(self.target, state.get("mode", 0o644))
+        if state.get("target_is_dir"):
+            os.mkdir(self.target)
         if state.get("symlink_to") is not None:
             real = os.path.join(self.root, "elsewhere.oct.md")
             with open(real, "wb") as f:
@@ -96,6 +98,8 @@ class Sandbox:
             fs.append([self.apath("target"), {"file": st["content"], "mode": st.get("mode", 0o644), "synced": True}])
         if st.get("symlink_to") is not None:
             fs.append([self.apath("target"), {"symlink": True}])
+        if st.get("target_is_dir"):
+            fs.append([self.apath("target"), {"dir": True}])
         return fs
 
     def query(self):
